@@ -164,8 +164,11 @@ class Scheduler(Subject):
             True if the corresponding PFDL file was valid and the Scheduler could be started.
         """
         if self.pfdl_file_valid:
-            self.fire_event(Event(event_type=START_PRODUCTION_TASK, data={}))
-            self.running = True
+            start_event = Event(event_type=START_PRODUCTION_TASK, data={})
+            if start_event in self.awaited_events:
+                # set the flag first: the order may already finish inside this call
+                self.running = True
+                self.fire_event(start_event)
             return True
         return False
 
